@@ -672,6 +672,8 @@ func checkC03(w *World, r *Report) {
 		})
 	}
 	r.Counts["nondeterminism sources on render paths"] = n2
+	// output does not depend on when a pool hands a container out again (garbage collection, what ran in between)
+	checkPooledContainersNotData(w, r, "R03.6")
 }
 
 // exemptThroughCallers: fn is an unexported function all of whose in-package callers are exempt
